@@ -12,7 +12,7 @@ from .gram import ActSpec, grammar_to_json
 
 
 def oracle_mustif(c: Case, tr: Trace) -> Optional[str]:
-    mi: Dict[int, str] = c.g.mi_msgs
+    mi = set(c.g.mi_msgs) if getattr(c.g, 'mi_rof', None) is None else set(c.g.mi_rof)      # the rules whose failure hook raises
     has_catch = any(nd.kind in ('tcrf', 'tcrn') for nd in c.g.nodes.values())
     stack = []        # [id, begin byte, max byte]
     first_exc = None  # (id, begin, max) of the first invocation that ended in an exception
